@@ -175,6 +175,45 @@ def _lint_partial(cfg, c: ast.Call) -> bool:
     return _leaves_are(cfg, c.args[0], cfg.stmt_of(c), lambda o: o.kind == "expr" and isinstance(o.expr, ast.Attribute) and o.expr.attr == "lint_rendered")
 
 
+_SELF_MUTATORS = ("append", "extend", "insert", "add", "update", "setdefault", "pop", "popitem", "clear", "remove", "discard", "sort", "reverse", "__setitem__")
+
+
+def _r24g(chk, repo) -> None:
+    cls = repo.cls(LINTER, "Linter")
+    n = 0
+    for f in [x for x in cls.body if isinstance(x, FuncNode)]:
+        if f.name == "__init__" or not f.args.args or f.args.args[0].arg != "self":
+            continue
+        n += 1
+        for node in walk_local(f):
+            bad = None
+            tg = []
+            if isinstance(node, ast.Assign):
+                tg = node.targets
+            elif isinstance(node, (ast.AugAssign, ast.AnnAssign)):
+                tg = [node.target]
+            elif isinstance(node, ast.Delete):
+                tg = node.targets
+            for t in tg:
+                for x in ast.walk(t):
+                    if isinstance(x, ast.Attribute) and isinstance(x.value, ast.Name) and x.value.id == "self" and isinstance(x.ctx, (ast.Store, ast.Del)):
+                        bad = f"self.{x.attr} is re-bound"
+                    if isinstance(x, ast.Subscript) and isinstance(x.ctx, (ast.Store, ast.Del)) and isinstance(x.value, ast.Attribute) and isinstance(x.value.value, ast.Name) and x.value.value.id == "self":
+                        bad = f"an item of self.{x.value.attr} is stored"
+            if isinstance(node, ast.Call) and isinstance(node.func, ast.Attribute) and node.func.attr in _SELF_MUTATORS and isinstance(node.func.value, ast.Attribute) \
+                    and isinstance(node.func.value.value, ast.Name) and node.func.value.value.id == "self" and node.func.value.attr not in ("formatter", "config", "templater"):
+                bad = f"self.{node.func.value.attr}.{node.func.attr}(..) changes it in place"
+            if bad:
+                chk.fail(
+                    "R24g", node,
+                    f"Linter.{f.name}: {bad} ({short(node, 60)}): what one file leaves on the Linter is seen by the next file of a serial run but not by a worker's fresh Linter, so "
+                    "the results depend on the process count and on the order of the files",
+                    detail=f"Linter.{f.name}: no state kept on the Linter between files",
+                )
+    chk.count("R24g.linter_methods", n)
+    chk.floor("R24g.linter_methods", 8)
+
+
 def run(chk) -> None:
     repo = chk.repo
     chk.rule("R24a", "every render->pack->lint site uses the task's filename, the runner's root config and the task's fix flag; the deferred task packet carries filename, root config, fix and user rules")
@@ -189,6 +228,8 @@ def run(chk) -> None:
     _r24c(chk, repo)
     _r24d(chk, repo, mod)
     _r24f(chk, repo)
+    chk.rule("R24g", "a Linter carries nothing from one file to the next: no method of Linter other than __init__ stores to self (attribute, item of an attribute, or an in-place change of an attribute) -- the serial runner reuses one Linter for every file while a worker builds a fresh one per task")
+    _r24g(chk, repo)
 
 
 # ---------------------------------------------------------------------------
@@ -944,6 +985,12 @@ _APPLY_COMMENT = (
 )
 
 VARIANTS = [
+    Variant(
+        "rule-pack-memoised-on-the-linter", LINTER,
+        "        cfg = config or self.config\n        return rs.get_rulepack(config=cfg)\n",
+        "        cfg = config or self.config\n        key = (cfg.get(\"dialect\"), tuple(cfg.get(\"rule_allowlist\") or ()))\n        cache = self.__dict__.setdefault(\"_rulepacks\", {})\n        if key not in cache:\n            self._rulepacks[key] = rs.get_rulepack(config=cfg)\n        return cache[key]\n",
+        "R24g", "get_rulepack", "seeded C24-5 (same shape): the first file's rule options stick for the rest of a serial run",
+    ),
     # behaviour-preserving refactors: must stay quiet
     Variant("quiet-worker-rule-pack-through-locals", RUNNER,
             "                rule_pack = linter.get_rulepack(config=rendered.config)\n                return Linter.lint_rendered(rendered, rule_pack, task.fix, None)\n",
